@@ -2,13 +2,27 @@
 
 package fitcsv
 
-import "github.com/muktihari/fit/profile/typedef"
+import (
+	"github.com/muktihari/fit/profile"
+	"github.com/muktihari/fit/profile/basetype"
+	"github.com/muktihari/fit/profile/typedef"
+	"github.com/muktihari/fit/proto"
+)
 
-// Verification hooks (build tag "verif" only): expose the generated lookup tables of the CSV reader so
-// that an external harness can dump them. No production code calls these.
+// Verification hooks (build tag "verif" only): expose the generated lookup tables of the CSV reader and
+// the two unexported value ↔ text functions so that an external harness can dump / drive them.
+// No production code calls these.
 
 // VerifMesgNumLookup returns the reader's message-name → message-number table.
 func VerifMesgNumLookup() map[string]typedef.MesgNum { return mesgNumLookup }
 
 // VerifFieldNumLookup returns the reader's per-message field-name → field-number tables.
 func VerifFieldNumLookup() []map[string]byte { return fieldNumLookup[:] }
+
+// VerifFormat is the writer's value → text function.
+func VerifFormat(val proto.Value) string { return format(val) }
+
+// VerifParseValue is the reader's text → value function.
+func VerifParseValue(strValue string, baseType basetype.BaseType, profileType profile.ProfileType, scale, offset float64, units string) (proto.Value, error) {
+	return parseValue(strValue, baseType, profileType, scale, offset, units)
+}
